@@ -50,13 +50,15 @@ MENU = [
     [('lo', -1)],
     [('A', -1)],
     [('lo', 1), ('A', 2), ('A', 3)],
+    [('A', 1), ('lo', 2)],               # hit types NOT ordered in height (accepted input): first hit above, second below
+    [('A', 1), ('L', 2), ('lo', 3)],
 ]
-QUICK_MENU = [0, 1, 2, 3, 4, 5, 7, 8, 10]
+QUICK_MENU = [0, 1, 2, 3, 4, 7, 8, 10, 12]
 
 
 def bound(tier):
-    return ('1 ceilometer x 3 stamps over a 9-entry menu + 2 ceilometers x 1 stamp over the full 12-entry menu' if tier == 'quick'
-            else '1 ceilometer x 3 stamps over the full 12-entry menu + 2 ceilometers x 2 stamps over the 9-entry menu')
+    return ('1 ceilometer x 3 stamps over a 9-entry menu + 2 ceilometers x 1 stamp over the full 14-entry menu' if tier == 'quick'
+            else '1 ceilometer x 3 stamps over the full 14-entry menu + 2 ceilometers x 2 stamps over the 9-entry menu')
 
 
 def cases(tier):
